@@ -4,6 +4,7 @@ import PortusModel.Lang.Serialize
 import PortusModel.Wire.Ctl
 import PortusModel.Wire.LibccpRead
 import PortusModel.Vm.Machine
+import PortusModel.Rt.Handle
 /-!
 # The closed tables, tied to the SOURCES on every run (DESIGN 11.7)
 
@@ -99,6 +100,90 @@ theorem src_lengths_eq :
           let b ← serializeUpdates m.fields
           pure (le32 m.numFields ++ b))) :=
   ⟨fun _ => rfl, fun _ => rfl, fun _ => rfl, fun _ => rfl, fun _ => rfl, fun _ => rfl⟩
+
+/-! ## the decision logic of the flow's handle and of `Report::get_field` (`src/lib.rs`) -/
+
+open Portus.Rt in
+/-- the model's resolution closure written over an `UpdFilter` -/
+def resolveFieldOf (u : UpdFilter) (sc : Scope) (f : Name × Nat) : Out (Reg × Nat) :=
+  if u.reservedPrefix.toList.isPrefixOf f.1 then .err
+  else match sc.get f.1 with
+    | none => .err
+    | some (.control i t v) => .ok (.control i t v, f.2)
+    | some (.implicit i t) => if u.implicitOk.contains i then .ok (.implicit i t, f.2) else .err
+    | some _ => .err
+
+/-- what the source's closure says, as read on this run -/
+theorem src_updFilter_eq :
+    srcUpdFilter = { recognised := true, sameInBoth := true, reservedPrefix := "__", implicitOk := [4, 5] } := by
+  decide +kernel
+
+/-- `Datapath::set_program` / `update_field`: the model's `resolveField` is the closure over the filter read from the source
+(reserved prefix, control registers and the implicit registers 4 = Cwnd, 5 = Rate only, value passed on unchanged) -/
+theorem src_resolveField_eq (sc : Scope) (f : Name × Nat) : Rt.resolveField sc f = resolveFieldOf srcUpdFilter sc f := by
+  rw [src_updFilter_eq]
+  unfold Rt.resolveField resolveFieldOf
+  by_cases hp : "__".toList.isPrefixOf f.1 = true
+  · simp only [hp, if_true]
+  · simp only [hp]
+    cases hg : sc.get f.1 with
+    | none => rfl
+    | some r =>
+      cases r with
+      | implicit i t =>
+        by_cases h4 : i = 4
+        · subst h4; rfl
+        · by_cases h5 : i = 5
+          · subst h5; rfl
+          · simp [h4, h5]
+      | _ => rfl
+
+/-- Rust error type of each refusal of `Report::get_field` ↦ the model's error kind -/
+def gfErr : String → Option Rt.GetErr
+  | "StaleProgramError" => some .stale
+  | "FieldNotFoundError" => some .notFound
+  | "InvalidRegTypeError" => some .invalidType
+  | "InvalidReportError" => some .invalidReport
+  | _ => none
+
+/-- `Report::get_field` written over the table read from the source (`none` = an error type the model does not know) -/
+def getFieldOf (g : GfTable) (reportUid : Nat) (fields : List Nat) (field : Name) (sc : Scope) : Option (Except Rt.GetErr Nat) :=
+  if !g.recognised then none
+  else if sc.uid ≠ reportUid then (gfErr g.staleErr).map .error
+  else match sc.get field with
+    | none => (gfErr g.notFoundErr).map .error
+    | some (.report idx _ _) =>
+      if (if g.boundIsGe then idx ≥ fields.length else idx > fields.length) then (gfErr g.shortErr).map .error
+      else some (.ok (fields.getD idx 0))
+    | some _ => (gfErr g.wrongClassErr).map .error
+
+theorem src_getFieldTable_eq :
+    srcGetField = { recognised := true, staleErr := "StaleProgramError", boundIsGe := true, shortErr := "InvalidReportError",
+                    wrongClassErr := "InvalidRegTypeError", notFoundErr := "FieldNotFoundError" } := by
+  decide +kernel
+
+/-- `Report::get_field`: the model's `getField` is the decision sequence read from the source - uid comparison first, then the
+lookup, the register class, the bound - with the source's error type at each refusal -/
+theorem src_getField_eq (uid : Nat) (fields : List Nat) (f : Name) (sc : Scope) :
+    getFieldOf srcGetField uid fields f sc = some (Rt.getField uid fields f sc) := by
+  rw [src_getFieldTable_eq]
+  unfold getFieldOf Rt.getField
+  simp only [Bool.not_true, Bool.false_eq_true, if_false, if_true]
+  by_cases hu : sc.uid ≠ uid
+  · simp [hu, gfErr]
+  · simp only [hu, if_false]
+    cases hg : sc.get f with
+    | none => simp [gfErr]
+    | some r =>
+      cases r with
+      | report idx ty vol =>
+        by_cases hi : idx ≥ fields.length
+        · have h1 : fields[idx]? = none := by simp; omega
+          simp [hi, h1, gfErr]
+        · have hlt : idx < fields.length := by omega
+          have h1 : fields[idx]? = some fields[idx] := by simp [hlt]
+          simp [hi, h1, List.getD]
+      | _ => simp [gfErr]
 
 /-! ## portus = libccp -/
 
